@@ -105,6 +105,54 @@ def pick_mut(rng, ws):
     return rng.choice(good or MUTS)
 
 
+# continuation bytes that regular expressions, str methods, C strings or format strings treat specially
+SPECIAL_BYTES = [0x0A, 0x0A, 0x0A, 0x0D, 0x00, 0x5C, 0x24, 0x2E, 0x5E, 0x2A, 0x2B, 0x3F, 0x28, 0x29, 0x5B, 0x5D, 0x7C,
+                 0x7B, 0x25, 0x20, 0x09, 0x0B, 0x0C, 0x1C, 0x1D, 0x1E, 0x1F, 0x7F, 0x22, 0x27]
+
+
+def gen_edge_find(rng):
+    """a prefix-related pair at the very END (or START, or middle) of a document: the phrase ends in a short id s,
+    the document has, right after the rest of the phrase, a longer id whose code is code(s) + one or two
+    continuation bytes, the last of them special somewhere ('\\n' for `$`, NUL, backslash, '.', ...); all phrase
+    ids occur elsewhere in the document too (the intersection pre-filter passes).  Also the true hits of the same
+    shape (the document really ends / starts with the phrase, whose last code byte is special)."""
+    s_id = rng.choice([1, 1, 2, 5, 0x7F, 0x80, 200, 0x3FFF, 0x4000, 20000, rng.randrange(1, 0x4000),
+                       rng.randrange(1, 0x200000)])
+    c = rng.choice(SPECIAL_BYTES)
+    long_id = s_id * 0x80 + c
+    if rng.random() < 0.2 and long_id * 0x80 < 0x10000000:
+        long_id = long_id * 0x80 + rng.choice(SPECIAL_BYTES)
+    if long_id >= 0x10000000 or long_id == 0:
+        s_id, long_id = 1, 0x80 + c
+    prefix = [max(1, rid(rng)) for _ in range(rng.choice([0, 1, 1, 2, 3]))]
+    phrase = prefix + [s_id]
+    filler = [max(1, rid(rng)) for _ in range(rng.randrange(0, 4))]
+    scattered = list(phrase)
+    if len(scattered) > 1:
+        scattered.reverse()                  # every phrase id is there, but not as the phrase
+    scattered.append(rng.choice([3, 300, 70000]))
+    m = rng.random()
+    if m < 0.2:
+        # true hit whose last byte is special: the phrase ends in the LONG id
+        phrase = prefix + [long_id]
+        tail = prefix + [long_id]
+        scattered = []
+    else:
+        tail = prefix + [long_id]
+    where = rng.choice(["end", "end", "end", "start", "middle", "only"])
+    if where == "end":
+        d = scattered + filler + tail
+    elif where == "start":
+        d = tail + filler + scattered
+    elif where == "only":
+        d = tail if m < 0.2 else tail + [s_id] * (len(prefix) > 0) + prefix[:1]
+        if m >= 0.2 and not prefix:
+            d = [long_id, 9, s_id] if rng.random() < 0.5 else [s_id, 9, long_id]
+    else:
+        d = scattered + tail + filler + [max(1, rid(rng))]
+    return ["find"] + phrase + ["|"] + d
+
+
 def gen_alias(rng, cmds):
     """later-call / aliasing probes: every list a call hands out belongs to the caller, every list handed in stays
     the caller's; the answers to later equal calls must not depend on what the caller did in between"""
@@ -148,6 +196,8 @@ def gen(rng, tier, idx):
         elif r < 0.5:
             ws = [rid(rng) for _ in range(rng.randrange(0, 12))]
             cmds.append(["dec"] + encode_ref(ws, rng))
+        elif r < 0.64:
+            cmds.append(gen_edge_find(rng))
         else:
             d = [max(1, rid(rng)) for _ in range(rng.randrange(0, 10))]
             if rng.random() < 0.5 and d:
@@ -353,6 +403,28 @@ def features(case, outs):
             f.append("alias:same-code-decoded-again-after-mutation")
         if c[0] == "find":
             f.append("find:" + o)
+            k = c.index("|")
+            ph, d = list(c[1:k]), list(c[k + 1:])
+            if ph and d:
+                pc, dc = encode_ref(ph, None), encode_ref(d, None)
+                n = len(pc)
+                for pos in range(len(dc) - n + 1):
+                    if dc[pos:pos + n] == pc and pos + n < len(dc) and dc[pos + n] < 0x80:
+                        nxt = dc[pos + n]
+                        rest = dc[pos + n:]
+                        at_end = all(b < 0x80 for b in rest)
+                        f.append("find:raw-hit-inside-a-longer-id")
+                        if at_end:
+                            f.append("find:raw-hit-inside-the-LAST-id")
+                            if rest[-1] in SPECIAL_BYTES:
+                                f.append("find:raw-hit-inside-the-LAST-id,last-byte-special")
+                            if rest == [0x0A]:
+                                f.append("find:raw-hit-then-single-0x0A-at-the-end")
+                        if pos == 0:
+                            f.append("find:raw-hit-inside-the-FIRST-id")
+                        break
+                if dc[-1] in SPECIAL_BYTES and o == "1" and dc[-n:] == pc:
+                    f.append("find:true-hit-at-the-end,last-byte-special")
         if o.startswith("err"):
             f.append(o)
         for t in c[1:]:
